@@ -36,6 +36,9 @@ def random_tps(rng, span_bias, capture=False):
                     f, m = prev[0]['file'], prev[0]['line']       # two tracepoints on one line
             tps.append(dict(id=i + 1, kind='line', file=f, line=m,
                             span=('capture' if capture else 'line') if span == 'x' else 'none'))
+            if rng.random() < 0.35:
+                # a sibling on the same line whose action always fails; listed FIRST so it is processed first
+                tps.insert(len(tps) - 1, dict(id=100 + i, kind='line', file=f, line=m, span='none', faulty=True))
         else:
             f, name = rng.choice(METHODS)
             tps.append(dict(id=i + 1, kind='method', file=f, name=name, line=0,
